@@ -127,7 +127,8 @@ def dispatch(chk: Check) -> None:
             if args:
                 v = k_.get('msg_text', '')
                 folded = v.replace('process_comms.MESSAGE_TEXT_KEY', "'message'").replace('MESSAGE_TEXT_KEY', "'message'")
-                ok &= set(k_) == {'msg_text'} and folded == text_expr(msgvar)
+                # (``d.get(k)`` is ``d.get(k, None)``)
+                ok &= set(k_) == {'msg_text'} and folded in (text_expr(msgvar), f"{msgvar}.get('message')")
             else:
                 ok &= not k_
         return bool(ok), outcomes[0][4]
@@ -146,8 +147,10 @@ def dispatch(chk: Check) -> None:
         ok, c = control_ok(br, btab.get(intent), target, args, br.params[2])
         chk.ob('TAB-dispatch', br, ok, f'broadcast subject {intent} schedules {target} with the same arguments as the RPC variant', node=c, kind=f'broadcast:{intent}', expr=None if c is not None else intent)
         # sibling agreement: for each control intent the two handlers schedule the same call
+        def shape(sh):   # (``d.get(k)`` is ``d.get(k, None)``)
+            return {(a_, tuple((k, v.replace(', None)', ')')) for k, v in kv)) for a_, kv in sh}
         b_shape = [(o[1], tuple((k, v.replace(br.params[2], mparam)) for k, v in o[2])) for o in btab.get(intent, []) if o[0] == 'call']
-        chk.ob('SIB-dispatch', br, bool(b_shape) and set(b_shape) == set(rpc_shape.get(intent, [])), f'RPC and broadcast handlers agree for {intent}', kind=f'agree:{intent}', expr=intent)
+        chk.ob('SIB-dispatch', br, bool(b_shape) and shape(b_shape) == shape(rpc_shape.get(intent, [])), f'RPC and broadcast handlers agree for {intent}', kind=f'agree:{intent}', expr=intent)
     bn = btab.get(None, []) + btab.get('STATUS', [])
     chk.ob('TAB-dispatch', br, bool(bn) and all(o[0] == 'return' and o[1] == 'None' for o in bn), 'any other broadcast subject is ignored (nothing is scheduled)', kind='broadcast-other-ignored')
     # MessageBuilder
@@ -278,11 +281,9 @@ def announcement(chk: Check) -> None:
         vals = [n.value for n in ast.walk(oe.node) if isinstance(n, ast.Assign) and norm(n.targets[0]) == subj.id]
         sv = vals[0] if len(vals) == 1 else None
     ok = False
-    if isinstance(sv, ast.JoinedStr):
-        parts = []
-        for v in sv.values:
-            parts.append(v.value if isinstance(v, ast.Constant) else '{' + norm(v.value) + '}')
-        txt = ''.join(parts)
+    from ..rules import string_template
+    txt = string_template(sv) if sv is not None else None
+    if txt is not None:
         ok = txt == 'state_changed.{from_label}.{self.state.value}'
         fl = [n.value for n in ast.walk(oe.node) if isinstance(n, ast.Assign) and norm(n.targets[0]) == 'from_label']
         fparam = oe.params[1]
